@@ -219,12 +219,30 @@ def run_circuit_case(case, acc):
 
     # ---- inverse --------------------------------------------------------------------------------------------------
     if level == "all":
+        def then_relabel_result(transf, r, operands):
+            """History: the result of an out-of-place transformation is re-indexed / trimmed IN PLACE afterwards; the operands of the
+            transformation must not move (index lists shared between result and operand would)."""
+            try:
+                k_ = len(r._qubit_indices)
+                if k_ >= 2:
+                    r.reindex_qubits([(i + 1) % k_ for i in range(k_)])
+                r.trim_qubits()
+            except Exception as e:
+                cx.bad(transf + ">reindex_qubits", "exception", {"err": repr(e)[:200]})
+                return
+            acc.ev()
+            for o, so in operands:
+                unchanged(transf + "(then the result is re-indexed in place)", o, so)
+
         c = fresh(); s0 = snap(c)
         ok, r = guarded("inverse", c.inverse)
         if ok:
             acc.ev()
             check_unitary(cx, "inverse", word, gl(r), U, U, adj=True)
             unchanged("inverse", c, s0)
+            ok3, r3 = guarded("inverse", c.inverse)
+            if ok3:
+                then_relabel_result("inverse", r3, [(c, s0)])
             if r.width != c.width:
                 cx.bad("inverse", "width", {"old": c.width, "new": r.width})
             # double inverse
@@ -255,6 +273,10 @@ def run_circuit_case(case, acc):
                 acc.ev()
                 check_unitary(cx, "mul", word * k, gl(r), U, U, exact_phase=True)
                 unchanged("mul", c, s0)
+                if k == 2:
+                    ok3, r3 = guarded("mul", lambda: c * k)
+                    if ok3:
+                        then_relabel_result("mul", r3, [(c, s0)])
                 if r.width != c.width:
                     cx.bad("mul", "width", {"old": c.width, "new": r.width, "k": k})
         c = fresh()
@@ -273,6 +295,10 @@ def run_circuit_case(case, acc):
                 check_unitary(cx, "add", word, gl(r), U, U, exact_phase=True)
                 unchanged("add(left)", a, sa)
                 unchanged("add(right)", b, sb)
+                if 0 < i < len(word):
+                    ok3, r3 = guarded("add", lambda: a + b)
+                    if ok3:
+                        then_relabel_result("add", r3, [(a, sa), (b, sb)])
                 if r.width < max(a.width, b.width):
                     cx.bad("add", "width", {"a": a.width, "b": b.width, "sum": r.width})
 
